@@ -1250,6 +1250,50 @@ def robustness(ctx, kinds):
 
 
 # --------------------------------------------------------------------------------------------------------
+def relative_configuration_case(ctx):
+    """The working directory of the server process is part of its environment: an application created from a RELATIVE
+    configuration path (`make_wsgi_app('mapproxy.yaml')` next to the file) in a process that changes its directory afterwards
+    (a daemon going to /, a preloading server).  Relative cache and lock directories of the configuration belong below the
+    directory of the configuration file, wherever the process is when a request comes in."""
+    import tempfile
+    import shutil
+    import webtest
+    from mapproxy.wsgiapp import make_wsgi_app
+    root = os.path.realpath(tempfile.mkdtemp(prefix='verif-c09-rel-'))
+    old_cwd = os.getcwd()
+    install_fake_upstream()
+    try:
+        etc, run_dir = os.path.join(root, 'etc'), os.path.join(root, 'run')
+        os.makedirs(etc)
+        os.makedirs(run_dir)
+        with open(os.path.join(etc, 'mapproxy.yaml'), 'w') as f:
+            f.write('services:\n  tms:\n  wms:\n    srs: ["EPSG:3857"]\n'
+                    'layers:\n  - name: lay\n    title: lay\n    sources: [c]\n'
+                    'caches:\n  c:\n    grids: [GLOBAL_MERCATOR]\n    sources: [up]\n'
+                    '    cache:\n      type: file\n      directory: ./tiles\n'
+                    'sources:\n  up:\n    type: wms\n    req:\n      url: http://upstream.invalid/wms\n      layers: x\n'
+                    'globals:\n  cache:\n    base_dir: ./cache_data\n    lock_dir: ./locks\n    tile_lock_dir: ./tile_locks\n')
+        os.chdir(etc)
+        app = webtest.TestApp(make_wsgi_app('mapproxy.yaml'))
+        os.chdir(run_dir)
+        with Recording() as events:
+            r = app.get('/tms/1.0.0/lay/EPSG900913/1/0/0.png', expect_errors=True)
+        ctx.count(('relative-configuration', r.status_int))
+        if r.status_int != 200:
+            raise tlc.MachineryError('relative configuration: the tile request answered %s: %s' % (r.status, r.text[:200]))
+        outside = sorted({p for ev, paths in events if ev in _MUTATING or ev == 'open-write' for p in paths
+                          if not under(etc, os.path.normpath(os.path.join(run_dir, p)))})
+        stored = [os.path.join(dp, fn) for dp, _d, fns in os.walk(os.path.join(etc, 'tiles')) for fn in fns if fn.endswith('.png')]
+        if outside or not stored:
+            ctx.violation({'kind': 'relative-configuration', 'what': 'outside' if outside else 'not-stored'},
+                          'application created from the relative path mapproxy.yaml in %s, process moved to %s afterwards: the tile '
+                          'request %s' % (etc, run_dir, ('writes outside the directory of the configuration: %s' % outside[:4]) if outside
+                                          else 'stored no tile below the configured cache directory ./tiles'), {'kind': 'relative-configuration'})
+    finally:
+        os.chdir(old_cwd)
+        shutil.rmtree(root, ignore_errors=True)
+
+
 def run(ctx):
     import logging
     logging.disable(logging.CRITICAL)        # the application logs a traceback for every refused spelling
@@ -1282,6 +1326,7 @@ def run(ctx):
     spec_to_code(ctx, variant, rk)
     code_to_spec(ctx, variant, tk)
     robustness(ctx, bk)
+    relative_configuration_case(ctx)
     ctx.assumptions += [
         'POSIX path semantics (separator "/"); the Windows separator and drive letters are not modelled',
         'paths are normalised lexically: no symbolic links to directories inside the cache and lock directories',
